@@ -10,7 +10,7 @@ CHECKS = {
          "Seeded exploration: generated tokens and authorizer contents inside the specified fragment are authorized by the real library while the simulator decides every engine goroutine interleaving and owns the clock; each verdict class (and the set of failed checks) is compared with an independent reference implementation of the decision procedure. Sampling, not proof; the property is a function of the input, so the detecting power is that of the generator and the reference model, the simulator contributes schedule variation and removes timeouts as a source of noise.",
          "trusted: reference model bsim/ref (validated on the repository's sample tokens), Go runtime, testing/synctest; yield points are the 7 simYield call sites", "DESIGN.md §3 C04"),
  "C05": ("exploration", "deterministic simulation: datalog.World under seeded goroutine schedules and clock stalls; refinement against a naive least-fixpoint reference evaluator",
-         "Seeded exploration of programs x fact orders x routes through World's API (direct, clone, evaluate twice, facts added after a first evaluation, rules withdrawn with ResetRules before the real ones) x engine schedules (calm, tape-ordered, tape-ordered with clock stalls): whenever Run returns nil the fact set must equal the reference least model (both inclusions) and every QueryRule result must equal the reference's head instances. Sampling, not proof.",
+         "Seeded exploration of programs x fact orders x routes through World's API (direct, clone, evaluate twice, facts added after a first evaluation, rules withdrawn with ResetRules before the real ones) x engine schedules (calm, tape-ordered, tape-ordered with clock stalls): whenever Run returns nil the fact set must equal the reference least model (both inclusions), no complete match of any rule may make an expression fail, a world evaluated after its clone must agree with the clone, and every QueryRule result must equal the reference's head instances. Sampling, not proof.",
          "trusted: reference evaluator bsim/ref (naive bottom-up, math/big arithmetic), Go regexp, synctest", "DESIGN.md §3 C05"),
  "C11": ("exploration", "deterministic simulation with fault injection: seeded schedules and clock stalls at engine yield points, limit configurations around the reference model's sizes, goroutine census after every call; plus enumeration of the stall position over every scheduler step of a program catalogue",
          "Seeded exploration (programs x limit configurations x schedules x clock stalls) with oracles S1-S6 of DESIGN §3 C11 (no silent truncation, limits honoured, distinguishable and possible error, bounded call time in simulated time and in scheduling steps past the deadline, limits honoured by every constructor, no stranded goroutine), plus a fault-enumeration part that is exhaustive in the injection step of the stall for a fixed catalogue of small programs (reported under coverage.fault_enumeration). Sampling elsewhere.",
@@ -55,7 +55,7 @@ CHECKS = {
          "Seeded exploration of interleavings; a data race is reported by the race detector whatever the distance in time between the two accesses because the scheduler contributes no happens-before edge; results of every operation must equal those of the same script run alone. Sampling; shadow-memory eviction can hide a pair, never invent one.",
          "trusted: Go race detector; the library has no lock/atomic whose critical section could be split, so operation granularity loses nothing for race detection", "DESIGN.md §3 C19"),
  "C20": ("fault_enumeration", "deterministic simulation with fault injection: simulated entropy source failing at every byte position; exhaustive enumeration of the failure point",
-         "Fault enumeration: every drawing operation x failure kind x EVERY k in [0,32] x 5 deliveries (a supplied source in 4 chunkings, and no supplied source with the simulated process-wide default crypto/rand.Reader being read; 1485 cases, exhaustive in k) on every run of the check, plus seeded random cases in longer histories: an operation whose draw failed returns an error and no token, does not panic, leaves its parent untouched and can be retried; a returned token's next secret equals the bytes actually delivered, its announced key is that seed's public key, and it verifies.",
+         "Fault enumeration: every drawing operation x 4 failure kinds (error, EOF, ErrUnexpectedEOF, an error that calls itself temporary) x EVERY k in [0,32] x 5 deliveries (a supplied source in 4 chunkings, and no supplied source with the simulated process-wide default crypto/rand.Reader being read; 1980 cases, exhaustive in k) on every run of the check, plus seeded random cases in longer histories: an operation whose draw failed returns an error and no token, does not panic, leaves its parent untouched and can be retried; a returned token's next secret equals the bytes actually delivered, its announced key is that seed's public key, and it verifies.",
          "trusted: bsim/ref envelope decoder, crypto/ed25519", "DESIGN.md §3 C20"),
 }
 
